@@ -540,3 +540,122 @@ func c17R13(ic *IC, r *Report) {
 }
 
 var _ = sort.Strings
+
+func init() {
+	ruleText["R17.14"] = "the constraint evaluator remembers nothing from one file to the next: the functions taking the *build.Context (the one adding yaegi:tags excepted, which only appends to Context.BuildTags) assign nothing but their own locals - the verdict of a constraint line depends on the tags, which a yaegi:tags comment of an earlier file changes"
+}
+
+// c17R14: round-6 seed. The verdicts of the +build lines were kept in a per-interpreter map
+// keyed by the line: a tag added by a yaegi:tags comment did not change the remembered verdict.
+func c17R14(ic *IC, r *Report) {
+	info := ic.Info
+	isCtx := func(t types.Type) bool {
+		if p, ok := t.(*types.Pointer); ok {
+			t = p.Elem()
+		}
+		n, ok := t.(*types.Named)
+		return ok && n.Obj().Pkg() != nil && n.Obj().Pkg().Path() == "go/build" && n.Obj().Name() == "Context"
+	}
+	n := 0
+	for _, name := range sortedKeys(ic.F) {
+		fi := ic.F[name]
+		if fi.Decl.Body == nil || fi.Obj == nil {
+			continue
+		}
+		sg := fi.Obj.Type().(*types.Signature)
+		takes := false
+		for i := 0; i < sg.Params().Len(); i++ {
+			if isCtx(sg.Params().At(i).Type()) {
+				takes = true
+			}
+		}
+		if !takes {
+			continue
+		}
+		n++
+		var bad []string
+		onlyTags := true
+		check := func(l ast.Expr, at ast.Node) {
+			root := rootIdent(l)
+			if root == nil {
+				// e.g. f().x = ...
+				bad = append(bad, types.ExprString(l)+" at "+ic.pos(at.Pos()))
+				return
+			}
+			if _, isId := unparen(l).(*ast.Ident); isId {
+				obj := info.ObjectOf(root)
+				if v, ok := obj.(*types.Var); ok && v.Parent() != ic.Pk.Types.Scope() {
+					return // a local, a parameter or a named result itself
+				}
+				bad = append(bad, types.ExprString(l)+" at "+ic.pos(at.Pos()))
+				return
+			}
+			// a field, element or pointee: local storage only when the root is a local that is not
+			// a parameter/receiver of pointer, map or slice type
+			obj, _ := info.ObjectOf(root).(*types.Var)
+			if obj != nil && obj.Parent() != ic.Pk.Types.Scope() && obj.Pos() > fi.Decl.Body.Pos() {
+				// declared inside the body: where does it come from? accept values built here
+				// (make, composite literal, strings.Split...) - anything but a copy of a parameter's
+				// field or of a package variable
+				fromOutside := false
+				ast.Inspect(fi.Decl.Body, func(q ast.Node) bool {
+					as, ok := q.(*ast.AssignStmt)
+					if !ok {
+						return true
+					}
+					for i, l2 := range as.Lhs {
+						if id := identOf(l2); id != nil && info.ObjectOf(id) == types.Object(obj) && i < len(as.Rhs) {
+							if se, ok := unparen(as.Rhs[i]).(*ast.SelectorExpr); ok && selField(info, se) != nil {
+								fromOutside = true
+							}
+							if ix, ok := unparen(as.Rhs[i]).(*ast.IndexExpr); ok && selField(info, ix.X) != nil {
+								fromOutside = true
+							}
+						}
+					}
+					return true
+				})
+				if !fromOutside {
+					return
+				}
+			}
+			if v := selField(info, l); v != nil && v.Name() == "BuildTags" {
+				return // counted below
+			}
+			bad = append(bad, types.ExprString(l)+" at "+ic.pos(at.Pos()))
+		}
+		writesTags := false
+		ast.Inspect(fi.Decl.Body, func(q ast.Node) bool {
+			switch y := q.(type) {
+			case *ast.AssignStmt:
+				for _, l := range y.Lhs {
+					if v := selField(info, l); v != nil && v.Name() == "BuildTags" {
+						writesTags = true
+					}
+					check(l, y)
+				}
+			case *ast.IncDecStmt:
+				check(y.X, y)
+			case *ast.CallExpr:
+				// sync.Map and friends
+				if o := calleeOf(info, y); o != nil && o.Pkg() != nil && o.Pkg().Path() == "sync" {
+					switch o.Name() {
+					case "Store", "LoadOrStore", "Swap", "CompareAndSwap":
+						bad = append(bad, types.ExprString(y.Fun)+" at "+ic.pos(y.Pos()))
+					}
+				}
+			}
+			return true
+		})
+		_ = onlyTags
+		what := "assigns only its own locals"
+		if writesTags {
+			what = "assigns only its own locals and Context.BuildTags"
+		}
+		r.Check(len(bad) == 0, "R17.14", name+"/remembers-nothing", ic.pos(fi.Decl.Pos()), what,
+			name+" stores into "+strings.Join(dedupStr(bad), ", ")+", which outlives the call: a verdict (or a part of it) remembered there was computed with the tags of that moment; after a yaegi:tags comment adds a tag, the files guarded by that tag are still excluded (or still included under its negation)")
+	}
+	if n < 5 {
+		r.Errorf("R17.14: only %d functions taking a *build.Context found in package interp", n)
+	}
+}
